@@ -309,7 +309,33 @@ def clause_e(ctx, P):
                     ctx.ob("C14e.client-channel-capacity", f.name, cap is not None, f.loc(b), "client event channel capacity is the constant %s" % cap)
 
 
+def clause_queue_released(ctx, P):
+    """'its reply channel yields a value or is closed': commands still queued when Exit is executed hold reply
+    Senders; flume keeps queued messages alive while any Sender handle exists, so unless the daemon consumes (answers or
+    drops) what is left in the queue, the reply Receivers of those calls neither yield nor close"""
+    run = P.one("Zeroconf::run")
+    cl = calls_to(run, "Zeroconf::cleanup")
+    if not cl:
+        return
+    cb = cl[0][0]
+    consumes = ("try_recv", "try_iter", "drain", "recv", "recv_timeout", "iter", "into_iter")
+    drains = [b for b, t in run.calls() if cname(t).startswith("flume::Receiver::") and method(cname(t)) in consumes and run.dominates(cb, b) and b != cb]
+    # or in the thread body after run returned (a clone of the receiver kept there)
+    later = []
+    for f in P.lib_fns():
+        rc = [b for b, t in f.calls() if run.name in P.call_targets(t)]
+        for b in rc:
+            later += [(f, b2) for b2, t2 in f.calls() if cname(t2).startswith("flume::Receiver::") and method(cname(t2)) in consumes and f.dominates(b, b2) and b2 != b]
+    ok = bool(drains) or bool(later)
+    ctx.ob("C14g.queued-commands-released", "Zeroconf::run|Exit", ok, run.loc(cb),
+           "what is left in the command queue is consumed after the clean-up (its reply senders are dropped or answered)" if ok else
+           "after Command::Exit the daemon returns and drops its Receiver without consuming the commands queued behind Exit: their reply "
+           "Senders stay alive inside the channel while any ServiceDaemon clone exists, so status()/get_metrics()/browse()/unregister()/"
+           "a second shutdown() racing with shutdown() return a Receiver that never yields and never closes")
+
+
 def run(ctx, P):
+    clause_queue_released(ctx, P)
     clause_a(ctx, P)
     clause_b(ctx, P)
     clause_c(ctx, P)
